@@ -230,6 +230,11 @@ def run(loader, R, tier):
                     "result_: apply() then returns the closure of the "
                     "previous sub-expression" % (
                         key, ", ".join(short(x) for x in Xs[:4])))
+    from rules.c12 import attribute_use
+    R.rule("R13.4", "every attribute a lambda handler fetches from the node "
+                    "is used by the closure it builds")
+    na = attribute_use(prog, V, R, "R13.4", sorted(CONCRETE.values()))
+    R.floor("node attributes fetched by lambda handlers", na, 30)
     R.floor("members read below apply()", nmem, 6)
     R.floor("lambda handlers", nhandlers, 80)
 
